@@ -19,7 +19,17 @@ type c14Model struct {
 	lastCnt  *Counts
 }
 
+func c14Base(tier string) int {
+	if tier == "thorough" {
+		return 20000
+	}
+	return 1200
+}
+
 func runC14(w *core.WorkerCtx, idx int) *core.CaseResult {
+	if base := c14Base(w.Tier); idx >= base {
+		return runC14Real(w, idx-base)
+	}
 	r := core.NewRng(w.Seed, 0xC14, uint64(idx))
 	res := &core.CaseResult{}
 	rs := RuleSets[idx%len(RuleSets)]
@@ -334,17 +344,13 @@ func init() {
 		Level: "exploration",
 		Rule: "case = one real sidecar (service + proxy + targets manager) with one of 6 metric_relabel_configs programs whose per-sample outcome is known by construction, a scripted Prometheus head count, 2-5 targets spread over two jobs (one with the rule set, one without), and a seed-determined sequence of 4-24 operations (scrape with a generated payload of 0-200 samples - sometimes 3000-6000, i.e. several parser blocks - duplicates included, gzip or identity, through Proxy.ServeHTTP; failing scrapes of three kinds; re-assignments with new estimates; configuration reloads that change only the job's metric relabel rules); after every operation /targets/status/, /runtimeinfo/, /samples/?with_metrics_detail=true (unfiltered and filtered by either job) and the in-process LastScrapeStatistics are compared with an arithmetic reference; runs from the -race binary; " +
 			"one scrape in five of an assigned target is held in the harness transport while the identical assignment is re-posted (normal binary only; the -race pass re-runs the first 600/6000 cases sequentially scheduled); " +
+			"plus 3/24 cases on the REAL sidecar process (head count through prom.Client as wired in cmd/kvass/sidecar.go): 7-12 back-to-back runtimeinfo polls while the stub Prometheus' head grows or is truncated: reported head >= Prometheus' head at the time of the request and >= the sum of target series; " +
 			"non-trivial = at least two scrapes executed; distinct = (rule set, #targets, head value, operation trace hash)",
 		Assumptions: []string{
 			"expected kept/dropped outcome of each sample is evaluated by plain string predicates written next to each rule set, not by the relabel package",
 			"LastScrapeStatistics is read in-process between operations (it is not exposed through the JSON API)",
 		},
-		NumCases: func(tier string) int {
-			if tier == "thorough" {
-				return 20000
-			}
-			return 1200
-		},
+		NumCases:      func(tier string) int { return c14Base(tier) + c14RealCases(tier) },
 		Run:           runC14,
 		MinNontrivial: 100,
 		// every case runs from the normal binary (with assignments re-posted while a scrape is in flight);
